@@ -518,8 +518,8 @@ func (c *checker) corruptionClass(s *Seq) string {
 // ---------------------------------------------------------------------------
 
 type unit struct {
-	fam   int   // index into families, or -1: injection
-	base  int   // index into bases (injection)
+	fam   int   // index into families, -1: injection, -2: late operations on retained objects
+	base  int   // index into bases (injection) / into lateSpaces
 	start int64 // first sequence index
 	count int64
 }
@@ -546,14 +546,32 @@ func buildUnits(thorough bool) []unit {
 			us = append(us, unit{fam: -1, base: bi, start: s, count: n})
 		}
 	}
+	lateSpaces = nil
+	for si := range scenarios {
+		for init := 0; init < scenarios[si].nInit; init++ {
+			lateSpaces = append(lateSpaces, newLateSpace(si, init, thorough))
+		}
+	}
+	for li, sp := range lateSpaces {
+		total := sp.count()
+		for s := int64(0); s < total; s += blockSize {
+			n := int64(blockSize)
+			if s+n > total {
+				n = total - s
+			}
+			us = append(us, unit{fam: -2, base: li, start: s, count: n})
+		}
+	}
 	return us
 }
+
+var lateSpaces []*lateSpace
 
 func TestCheck(t *testing.T) {
 	cfg := mon.Load("C20")
 	// millions of tiny short-lived builder objects, a few MB live: collect less often
 	debug.SetGCPercent(1600)
-	nRandom := cfg.Pick(2000, 20000)
+	nRandom := cfg.Pick(2400, 24000) // every 4th is a random sequence of late operations
 
 	var famDesc []string
 	for _, f := range families {
@@ -635,6 +653,15 @@ func TestCheck(t *testing.T) {
 	rep.Cases(int64(len(myUnits))+myRandom, func(idx int64, rng *mon.Rand) {
 		if idx < int64(len(myUnits)) {
 			u := units[myUnits[idx]]
+			if u.fam == -2 {
+				for k := int64(0); k < u.count; k++ {
+					ls := lateSpaces[u.base].nth(u.start + k)
+					c.checkLate(ls)
+					rep.NonTrivial(ls.digest())
+				}
+				rep.Count("enumerated_late_sequences", u.count)
+				return
+			}
 			for k := int64(0); k < u.count; k++ {
 				var s *Seq
 				if u.fam >= 0 {
@@ -645,6 +672,13 @@ func TestCheck(t *testing.T) {
 				c.checkSeq(s)
 			}
 			rep.Count("enumerated_sequences", u.count)
+			return
+		}
+		if (idx-int64(len(myUnits)))%4 == 3 {
+			ls := randomLateSeq(rng)
+			c.checkLate(ls)
+			rep.NonTrivial(ls.digest())
+			rep.Count("random_late_sequences", 1)
 			return
 		}
 		s := randomSeq(rng)
